@@ -119,7 +119,9 @@ class Result:
     __slots__ = ("vf", "vt", "i_f", "i_t", "res", "res_idx", "chunks", "recorder", "warned", "detector")
 
 
-REPRESENTATIONS = ["float64", "list", "noncontiguous_view", "readonly", "int64", "float32", "series_nondefault_index", "tuple"]
+REPRESENTATIONS = ["float64", "list", "noncontiguous_view", "readonly", "int64", "float32", "series_nondefault_index", "tuple",
+                   "reused_buffer"]
+_scratch = np.empty(1 << 16)
 _repr_seen = collections.Counter()
 
 
@@ -148,6 +150,10 @@ def represent(c, k):
         return a.astype(np.float32)
     if kind == "series_nondefault_index":
         return pd.Series(a, index=np.arange(len(a))[::-1] * 3 + 7)
+    if kind == "reused_buffer" and len(a) <= len(_scratch):
+        # streaming through one buffer: the caller's array is overwritten as soon as process() has returned (see run())
+        _scratch[:len(a)] = a
+        return _scratch[:len(a)]
     return a
 
 
@@ -155,7 +161,7 @@ def representations_seen():
     return dict(_repr_seen)
 
 
-def run(det, chunks, as_arrays=True, vary=False):
+def run(det, chunks, as_arrays=True, vary=False, first_rep=None):
     """feed chunks to a fresh detector; returns Result (indices None for FKM).
     vary: hand every chunk over in another representation of the same numbers (deterministic in the chunk)"""
     d = make(det)
@@ -164,7 +170,10 @@ def run(det, chunks, as_arrays=True, vary=False):
         warnings.simplefilter("always")
         for j, c in enumerate(chunks):
             if vary:
-                d.process(represent(c, j * 3 + len(c)))
+                x_ = represent(c, first_rep if (j == 0 and first_rep is not None) else j * 3 + len(c))
+                d.process(x_)
+                if isinstance(x_, np.ndarray) and np.shares_memory(x_, _scratch):
+                    _scratch[:len(x_)] = 9.0e99            # the detector must not look at the caller's memory again
                 continue
             d.process(np.asarray(c, dtype=float) if as_arrays else c)
         warned = sum(1 for x in w if issubclass(x.category, UserWarning) and "NaN" in str(x.message))
